@@ -327,6 +327,22 @@ def manager_lemma(E):
     E.prove('manager:no-reply-slot-to-begin-with', len(E.get(tm, 'transactions')) == 0)
 
 
+def history_free(c):
+    def lemma(E):
+        from .C01 import fc_byte, CDEC
+        v = c.view(E)
+        pdu = E.as_bytes(L.concat([fc_byte(E, c, v)], c.wire(E, v)))
+        dec = E.new(CDEC)
+        first = E.attempt(lambda: E.method(dec, 'decode', pdu))
+        kept = E.clone(first.value) if (first.ok and first.value is not None) else None       # what the caller was handed, as it was then
+        second = E.attempt(lambda: E.method(dec, 'decode', pdu))
+        E.prove('history:same-outcome', (first.ok == second.ok) and ((first.value is None) == (second.value is None) if first.ok else True))
+        if first.ok and second.ok and first.value is not None and second.value is not None and E.classname(first.value) == c.name == E.classname(second.value):
+            E.prove('history:the-second-decode-of-the-same-bytes-gives-the-same-fields', c.same(E, c.read(E, kept), c.read(E, second.value)))
+            E.prove('history:a-later-decode-does-not-reach-into-the-message-handed-out-earlier', c.same(E, c.read(E, kept), c.read(E, first.value)))
+    return lemma
+
+
 def get_units():
     us = [Unit('%s/manager' % PROP, manager_lemma, [PROP], functions=[CL.BASE + '.__init__', CLIENTS + 'ModbusTcpClient.__init__', CLIENTS + 'ModbusUdpClient.__init__',
                                                                    CLIENTS + 'ModbusSerialClient.__init__', TMQ + '.__init__'])]
@@ -346,6 +362,15 @@ def get_units():
             nm = '%s/pairing.%s%s' % (PROP, kind, '.udp' if udp else '.tcpclient' if tcp else '')
             us.append(Unit(nm, pairing(kind, udp, tcp), [PROP], contracts=cs, loops={(TMQ + '.execute', 0): retry_ann(ghost)}, twin=pairing_twin(kind),
                            functions=[TMQ + '.execute', TMQ + '._transact', TMQ + '._recv', TMQ + '._send', TMQ + '.getNextTID', CL.TM + '.addTransaction', CL.TM + '.getTransaction']))
+    # "decoded from bytes received during that call ... for all histories of prior transactions": what the real client decoder makes of a
+    # reply PDU does not depend on the replies it decoded before - the same bytes decoded a second time give the same fields (what
+    # those fields are is C01/C02; the pairing lemmas abstract the decoder)
+    from . import codecs as _C, C01 as _C01
+    for c in _C.all_codecs():
+        if c.direction != 'rsp':
+            continue
+        us.append(Unit('%s/decoder.history-free.%s' % (PROP, c.name), history_free(c), [PROP], contracts=_C01.CONTRACTS, loops=dict(c.loops), unroll=c.unroll, bounded=c.bounded,
+                       functions=[c.cls + '.decode', c.cls + '.__init__', 'pymodbus.factory.ClientDecoder.decode']))
     us.append(Unit('%s/tid' % PROP, tid_lemma, [PROP], functions=[TMQ + '.getNextTID']))
     us.append(Unit('%s/serial.flush' % PROP, serial_flush_lemma, [PROP], functions=['pymodbus.client.sync.ModbusSerialClient._send', 'pymodbus.client.sync.ModbusSerialClient._in_waiting']))
     return us
